@@ -83,6 +83,24 @@ member `b % r`, hence factorizes batch member `b` of the repeated operator. -/
 theorem batchRepeat_chol {r : Nat} (hr : 0 < r) (L A : Fin r → Matrix n n α) (h : ∀ b, L b * (L b)ᵀ = A b)
     (b : Nat) : L ⟨b % r, Nat.mod_lt _ hr⟩ * (L ⟨b % r, Nat.mod_lt _ hr⟩)ᵀ = A ⟨b % r, Nat.mod_lt _ hr⟩ := h _
 
+/-- `CholLinearOperator(R, upper=True)` (meaning `RᵀR`): `cholesky(upper=True)` returns `R` itself and
+`cholesky(upper=False)` its transpose, which is lower triangular with `L Lᵀ = RᵀR`. -/
+theorem cholUpper_cholesky {m : Nat} (R A : Matrix (Fin m) (Fin m) α) (hR : Rᵀ * R = A) (hT : UpperTri R) :
+    (UpperTri R ∧ Rᵀ * R = A) ∧ (LowerTri Rᵀ ∧ Rᵀ * (Rᵀ)ᵀ = A) := by
+  refine ⟨⟨hT, hR⟩, fun i j hij => hT j i hij, ?_⟩
+  rw [transpose_transpose]; exact hR
+
+/-- `CholLinearOperator(R, upper=True).root_decomposition()` returns `RootLinearOperator(Rᵀ)`: `B = Rᵀ`
+satisfies `B Bᵀ = RᵀR`; `root_inv_decomposition()` returns `RootLinearOperator(R⁻¹)`: `R⁻¹ R⁻ᵀ (RᵀR) = I`. -/
+theorem cholUpper_roots (R Ri A : Matrix n n α) (hR : Rᵀ * R = A) (hi : R * Ri = 1) :
+    Rᵀ * (Rᵀ)ᵀ = A ∧ Ri * Riᵀ * A = 1 := by
+  refine ⟨by rw [transpose_transpose]; exact hR, ?_⟩
+  have hi' : Ri * R = 1 := mul_eq_one_comm.1 hi
+  have hti : Riᵀ * Rᵀ = 1 := by rw [← transpose_mul, hi, transpose_one]
+  rw [← hR]
+  calc Ri * Riᵀ * (Rᵀ * R) = Ri * (Riᵀ * Rᵀ) * R := by simp only [Matrix.mul_assoc]
+    _ = 1 := by rw [hti, Matrix.mul_one, hi']
+
 /-! ### Roots per method -/
 
 /-- `scaleCols` of the model is right multiplication by a diagonal matrix. -/
@@ -128,6 +146,21 @@ theorem rootInv_from_chol (L Li A : Matrix n n α) (hL : L * Lᵀ = A) (hi : L *
   rw [transpose_transpose, ← hL]
   calc Liᵀ * Li * (L * Lᵀ) = Liᵀ * (Li * L) * Lᵀ := by simp only [Matrix.mul_assoc]
     _ = 1 := by rw [hi', Matrix.mul_one, hti']
+
+/-- `cat_rows` (Cholesky branch): with `Z = [[E, 0], [F, G]]` lower triangular, `Z Zᵀ = C`, the cached inverse
+root must be `(Z⁻¹)ᵀ`: `(Z⁻¹)ᵀ ((Z⁻¹)ᵀ)ᵀ C = I`. -/
+theorem catRows_rootInv (Z Zi C : Matrix n n α) (hZ : Z * Zᵀ = C) (hi : Z * Zi = 1) :
+    Ziᵀ * (Ziᵀ)ᵀ * C = 1 := rootInv_from_chol Z Zi C hZ hi
+
+/-- … whereas `Z⁻¹` itself (the transpose forgotten) is in general **not** an inverse root:
+`Z = [[1,0],[1,1]]`, `Z⁻¹ Z⁻ᵀ · Z Zᵀ ≠ I`. -/
+theorem catRows_rootInv_untransposed_counterexample :
+    ∃ (Z Zi : Matrix (Fin 2) (Fin 2) ℚ), Z * Zi = 1 ∧ Zi * Ziᵀ * (Z * Zᵀ) ≠ 1 := by
+  refine ⟨!![1, 0; 1, 1], !![1, 0; -1, 1], ?_, ?_⟩
+  · ext i j; fin_cases i <;> fin_cases j <;> simp [Matrix.mul_apply, Fin.sum_univ_two]
+  · intro h
+    have := congrFun (congrFun h 0) 1
+    simp [Matrix.mul_apply, Fin.sum_univ_two, Matrix.vecMul, dotProduct, Matrix.transpose_apply] at this
 
 /-- `root_inv_decomposition(method="pinverse")`: `P = pinv(R)ᵀ` with `pinv(R) = Rᵀ(R Rᵀ)⁻¹` for a root of
 full row rank: `P Pᵀ A = I`. -/
@@ -546,7 +579,7 @@ theorem generated_overrides_covered :
        ("BatchRepeatLinearOperator", ["_cholesky", "_root_decomposition", "_root_inv_decomposition", "_symeig", "_svd"]),
        ("BlockDiagLinearOperator", ["_cholesky", "_root_decomposition", "_root_inv_decomposition", "_symeig", "_svd"]),
        ("BlockInterleavedLinearOperator", ["_cholesky", "_root_decomposition", "_root_inv_decomposition"]),
-       ("CholLinearOperator", ["_cholesky", "root_inv_decomposition"]),
+       ("CholLinearOperator", ["_cholesky", "_root_decomposition", "root_decomposition", "root_inv_decomposition"]),
        ("ConstantMulLinearOperator", ["root_decomposition"]),
        ("DiagLinearOperator", ["_cholesky", "_root_decomposition", "_root_inv_decomposition", "_symeig", "_svd"]),
        ("IdentityLinearOperator", ["_cholesky", "_root_decomposition", "_root_inv_decomposition", "_symeig", "_svd"]),
